@@ -131,12 +131,12 @@ def _hist_strategy():
         return [n] + m[1:]
 
     send = st.builds(lambda m, n, b: ["send", retarget(m, n), b], gen.wellformed_message(), node, st.sampled_from((None, None, True, False)))
-    send_set = st.builds(lambda n, c, t, v, b: ["send", [n, c, 1, 0, t, v], b], node, st.sampled_from((0, 1)), st.sampled_from((0, 2)), gen.short_payloads, st.sampled_from((None, None, False)))
+    send_set = st.builds(lambda n, c, t, v, b: ["send", [n, c, 1, 0, t, v], b], node, st.sampled_from((0, 1)), st.sampled_from((0, 2)), st.one_of(st.sampled_from(("0", "1", "1", "0")), gen.short_payloads), st.sampled_from((None, None, False)))
     wake = st.builds(lambda n, t: ["rx", f"{n};255;3;0;{t};7\n"], node, st.sampled_from((22, 32)))
     other = st.one_of(
         st.builds(lambda n: ["rx", f"{n};255;0;0;17;2.0\n"], node),
         st.builds(lambda n, c: ["rx", f"{n};{c};0;0;3;relay\n"], node, st.sampled_from((0, 1))),
-        st.builds(lambda n, c: ["rx", f"{n};{c};1;0;2;1\n"], node, st.sampled_from((0, 1))),
+        st.builds(lambda n, c, t, v: ["rx", f"{n};{c};1;0;{t};{v}\n"], node, st.sampled_from((0, 1)), st.sampled_from((0, 2)), st.sampled_from(("0", "1"))),
         st.builds(lambda n: ["rx", f"{n};255;3;0;0;50\n"], node),
         st.sampled_from((["rx", "0;255;3;0;9;log\n"], ["rx", "junk\n"], ["rx", "0;255;3;0;2;2.2.0\n"])),
     )
@@ -155,8 +155,9 @@ def _run_hist(case: dict) -> Outcome:
 
     async def go() -> Outcome | None:
         gateway, transport = env.make_gateway(case["version"])
-        env.install_registry(gateway.nodes, {"5": {"children": {"0": {"child_type": 3}}}, "6": {"sleeping": True, "children": {"0": {"child_type": 3}, "1": {"child_type": 3}}},
-                                            "8": {"sleeping": True, "children": {"0": {"child_type": 3}}}})
+        env.install_registry(gateway.nodes, {"5": {"children": {"0": {"child_type": 3}}},
+                                            "6": {"sleeping": True, "children": {"0": {"child_type": 3, "values": {"0": "1", "2": "0"}}, "1": {"child_type": 3}}},
+                                            "8": {"sleeping": True, "children": {"0": {"child_type": 3, "values": {"2": "1"}}}}})
         owed: dict[int, dict] = {}  # node -> {key: line}; set commands keep the latest per (child, type)
 
         async def expect_release(node: int, wrote: list[str], where: str) -> Outcome | None:
